@@ -50,11 +50,6 @@ def check_entity(p, report, ci, f, it, r_param="R5.1", r_arr="R5.2", r_est="R5.3
                 continue
             if r_param is None:
                 continue
-            if str(w.how).startswith("draw:") and path == ("random_state",):
-                # consuming a caller-supplied RandomState instance is
-                # scikit-learn's random_state contract; the pool-specific
-                # repeated-call clause is decided under C06 (R6.4)
-                continue
             hit_params.add(path[0])
             construct = _construct(w)
             what = ("constructor parameter rebound" if (w.kind == "store" and len(path) == 1)
